@@ -42,7 +42,7 @@ def run(ctx, replay):
         for qk in ("a", "cname", "nx"):
             for fl in ({"do": True, "ad": False, "cd": False}, {"do": False, "ad": False, "cd": False}):
                 for t in ({"dnskey": "roguekey"}, {"dnskey": "roguekey", "answer": "roguesig"}, {"rootref": "dropds"},
-                          {"rootref": "dropds", "answer": "data"}, {"rootref": "strip"}, {"answer": "fakedname"}):
+                          {"rootref": "dropds", "answer": "data"}, {"rootref": "strip"}, {"answer": "fakedname"}, {"answer": "foreigndeny"}):
                     cases.append({"zone": zone, "qk": qk, "flags": fl, "tamper": dict(none, **t), "anchor": True,
                                   "exp": {"rcode": "servfail", "ad": False}})
     seen = set()
